@@ -22,11 +22,19 @@ var neutralKinds = []string{"badrequest", "interrupt", "reject", "shortcircuit"}
 func (openerSuite) Gen(r *rand.Rand, i int) Case {
 	if r.Intn(4) == 0 {
 		thr := int64(r.Intn(6)) - 1
-		if thr == 0 {
-			thr = 1 // 0 would be replaced by the default at construction
-		}
 		c := Case{Header: fmt.Sprintf("opener kind=consec thr=%d", thr), Tags: []string{"consec"}}
 		t := int64(0)
+		if thr == 0 {
+			// left unset: the documented default (10 consecutive failures) applies — walk up to it and across
+			c.Tags = append(c.Tags, "defaults")
+			for j := 0; j < 11; j++ {
+				c.Ops = append(c.Ops, fmt.Sprintf("ev %s %d", pick(r, "failure", "timeout"), t))
+				if j >= 8 {
+					c.Ops = append(c.Ops, fmt.Sprintf("should %d", t))
+				}
+				t += r.Int63n(3)
+			}
+		}
 		for j, n := 0, 1+r.Intn(40); j < n; j++ {
 			t += r.Int63n(5)
 			switch x := r.Intn(100); {
@@ -80,13 +88,40 @@ func (openerSuite) Gen(r *rand.Rand, i int) Case {
 			pct = 1
 		}
 	}
+	hn, hdur := int64(n), dur
 	vol := []int64{1, a - 1, a, a + 1, 1 + r.Int63n(a+2)}[r.Intn(5)]
 	if vol <= 0 {
 		vol = 1
 	}
+	if r.Intn(6) == 0 {
+		// thresholds LEFT UNSET at construction (0): the documented defaults apply — 50 % of at least 20 requests.
+		// The history sits on the boundary of the default that applies (and around 50 requests / 20 %, what a mix-up
+		// of the two would need)
+		tag = "defaults"
+		unset := r.Intn(3) // 0: percentage, 1: volume, 2: both
+		if unset != 0 {
+			a = []int64{19, 20, 21, 49, 50, 51}[r.Intn(6)]
+			vol = 0
+		}
+		pe := pct
+		if unset != 1 {
+			pe, pct = 50, 0
+		}
+		e = pe*a/100 + []int64{-1, 0, 0, 1}[r.Intn(4)]
+		if e < 0 {
+			e = 0
+		}
+		if e > a {
+			e = a
+		}
+		if r.Intn(2) == 0 { // the window too: 10 buckets over 10 s
+			hn, hdur = 0, 0
+			n, width, dur = 10, 1_000_000_000, 10_000_000_000
+		}
+	}
 	// the injected clock may lie before or after the wall clock: a view read at the wall clock would move the window
 	base := pick(r, "future", "past")
-	c := Case{Header: fmt.Sprintf("opener kind=hystrix n=%d dur=%d pct=%d vol=%d base=%s", n, dur, pct, vol, base), Tags: []string{"hystrix", tag}}
+	c := Case{Header: fmt.Sprintf("opener kind=hystrix n=%d dur=%d pct=%d vol=%d base=%s", hn, hdur, pct, vol, base), Tags: []string{"hystrix", tag}}
 	t := r.Int63n(3 * width)
 	// optional prelude that must fall out of the window / be reset
 	if r.Intn(3) == 0 {
